@@ -172,6 +172,80 @@ func exactBatches(rng *rand.Rand, g *world.Gen) func(uint32, *world.BlockSpec) {
 	}
 }
 
+// averagedBatches writes, from the averaging era on, batches of the shape
+// [transfer a of X out, conversion of Y into X, transfer of the whole
+// pre-batch balance of X out] where a sits around the yield the conversion
+// would have at the last recorded spot rates. Whether the last transfer fits
+// depends on the yield actually credited (min(spot, average) over max(spot,
+// average)), so some of these batches must be rejected as a whole although a
+// funds check that prices the conversion at spot rates would admit them. It
+// has a random source of its own (a function of the height), so adding it to
+// a check does not move that check's other draws.
+func averagedBatches(g *world.Gen) func(uint32, *world.BlockSpec) {
+	f := newFollower(g)
+	oneWay := map[int]bool{model.PEG: true, model.PFCT: true}
+	for _, t := range smallDst {
+		oneWay[t] = true
+	}
+	return func(h uint32, bs *world.BlockSpec) {
+		if h < g.B.W.Spec.Config.Act["PIP10"] {
+			return
+		}
+		hs := f.funded(h, g.P.Users)
+		if len(hs) == 0 {
+			return
+		}
+		var rates map[int]uint64
+		for k := f.l.Height; k > 0 && k+20 > f.l.Height; k-- {
+			if r := f.l.Rates[k]; len(r) > 0 {
+				rates = r
+				break
+			}
+		}
+		if rates == nil {
+			return
+		}
+		busy := map[int]bool{}
+		for _, t := range bs.Tx {
+			r := t.From
+			if t.RCDE {
+				r = world.AddrEthBase - t.From
+			}
+			busy[r] = true
+		}
+		r := rand.New(rand.NewSource(int64(h)*7919 + int64(len(hs))))
+		made := 0
+		for tries := 0; tries < 8 && made < 2; tries++ {
+			x := hs[r.Intn(len(hs))]
+			if busy[x.ref] || oneWay[x.asset] || rates[x.asset] == 0 {
+				continue
+			}
+			var y *holding
+			for i := range hs {
+				if hs[i].ref == x.ref && hs[i].asset != x.asset && rates[hs[i].asset] > 0 {
+					y = &hs[i]
+					break
+				}
+			}
+			if y == nil {
+				continue
+			}
+			yin := y.amt/2 + 1
+			est := new(big.Int).Mul(new(big.Int).SetUint64(yin), new(big.Int).SetUint64(rates[y.asset]))
+			est.Div(est, new(big.Int).SetUint64(rates[x.asset]))
+			est.Mul(est, big.NewInt(int64(900+r.Intn(151)))).Div(est, big.NewInt(1000))
+			if !est.IsUint64() || est.Uint64() == 0 || est.Uint64() > x.amt {
+				continue
+			}
+			other := 10 + r.Intn(g.P.Users)
+			busy[x.ref] = true
+			made++
+			bs.Tx = append(bs.Tx, txFrom(x.ref, nextNonce(), xfer(x.asset, est.Uint64(), other),
+				world.TxPart{Asset: y.asset, Amt: yin, Conv: x.asset}, xfer(x.asset, x.amt, other)))
+		}
+	}
+}
+
 // burnAddressTraffic sends funds to the two burn addresses and the mint
 // address (prior balances for the one-time adjustments; destroyed outputs
 // from 2.0.2 on).
